@@ -5,9 +5,13 @@ package criteria_concealment
 
 // Contracts for gocv (comment-only; compiled out unless the tag "verif" is set, and empty then).
 
+// the scaling of the concealed criterion's range: as requested (1 when absent); only 0 is rejected - a negative one mirrors the range
 //@ func parseProps
 //@   property C18 C20 C09 C01
+//@   panics_iff [scaling_zero] decoded_has(*props, "NewCriterionScaling") && decoded_real(*props, "NewCriterionScaling") == 0.0
 //@   ensures [scaling_nonzero] result.NewCriterionScaling != 0.0
+//@   ensures [as_requested] fresh(result) && result.NewCriterionScaling == (decoded_has(*props, "NewCriterionScaling") ? decoded_real(*props, "NewCriterionScaling") : 1.0)
+//@             && result.RandomSeed == (decoded_has(*props, "RandomSeed") ? decoded_int(*props, "RandomSeed") : 0)
 
 //@ func getCriterionValueRange
 //@   property C18 C07 C09 C01
